@@ -146,7 +146,8 @@ pub fn run(run: &RunInfo) -> Summary {
         }
     }
     // tokens and receipt numbers
-    let tokens = ["A", "384HH2", "ABCDEFGHIJKLMN", "", "\u{c4}\u{d6}\u{dc}\u{df}\u{a5}"];
+    // incl. tokens with blanks at either end, blanks only, tabs, the CP437 no-break space, mixed case
+    let tokens = ["A", "384HH2", "ABCDEFGHIJKLMN", "", "\u{c4}\u{d6}\u{dc}\u{df}\u{a5}", " A1B2C3", "A1B2C3 ", "  ", "\tX\r", "\u{a0}Q\u{a0}", "aBc", "0007", "A B"];
     for t in tokens {
         for receipt in [1u64, 231, 9999] {
             for (pre, fin) in [(2500u64, 1295u64), (2500, 2500), (2500, 9999), (0, 0)] {
@@ -205,7 +206,7 @@ pub fn run(run: &RunInfo) -> Summary {
         transitions: acc.get("transitions"),
         traces_validated: execs,
         distinct_nontrivial: acc.set_len("cases"),
-        rule: "real Feig client (begin; commit) against the simulated terminal for: all pairs pre-authorisation 0..=24 x final 0..=26 and the boundary grid pre in {2500, 10^6, 10^12-1} x final in {pre-1, pre, pre+1, 2 pre, 2^32, 2^63-1, 2^63, 2^63+1, 2^63+pre, u64::MAX-10^6, u64::MAX-1, u64::MAX} x currencies {752, 826, 978}; 5 tokens (incl. empty and upper CP437 half) x receipt numbers {1, 231, 9999}; the product of the alphabets of the five reported status fields incl. absent and leading-zero values. Requests are decoded by the reference codec and compared with the reference model; the summary with the reported values".into(),
+        rule: "real Feig client (begin; commit) against the simulated terminal for: all pairs pre-authorisation 0..=24 x final 0..=26 and the boundary grid pre in {2500, 10^6, 10^12-1} x final in {pre-1, pre, pre+1, 2 pre, 2^32, 2^63-1, 2^63, 2^63+1, 2^63+pre, u64::MAX-10^6, u64::MAX-1, u64::MAX} x currencies {752, 826, 978}; 13 tokens (incl. empty, upper CP437 half, blanks / tabs / no-break space at either end, mixed case, leading zeros) x receipt numbers {1, 231, 9999}; the product of the alphabets of the five reported status fields incl. absent and leading-zero values. Requests are decoded by the reference codec and compared with the reference model; the summary with the reported values".into(),
         exhaustive: true,
         required_witnesses: vec!["final amount above the pre-authorisation (release must be zero)".into(), "final amount at and above 2^63".into()],
         assumptions: vec!["pre-authorisation amounts >= 10^12 do not fit the 12-digit field and are outside the domain".into(), "the textual padding of the terminal id is not fixed by the statement (compared numerically)".into()],
